@@ -61,10 +61,21 @@ def check(pid, tier, scratch, replay):
             js = list(range(1, n + 1)) if not quick else sorted(set([1, 2, max(1, n // 2), n - 1, n]) - {0})
             if not quick and n > 60:
                 js = sorted(set(js[:20] + rnd.sample(js, 30) + js[-10:]))
+            # the last calls of the step that completes a task (final rescan batch, last removal round: status record,
+            # balance, commit) decide whether the task is finished or retried: always taken
+            last = st['a'] == 'RemoveStep' or (st['a'] == 'ImportStep' and st.get('done'))
             for j in js:
-                jobs.append(dict(u=b['u'], h=h, mode='fault', opt=dict(fault_step=s, fault_call=j), src=b['src']))
+                jobs.append(dict(u=b['u'], h=h, mode='fault', opt=dict(fault_step=s, fault_call=j), src=b['src'],
+                                 must=bool(last and j >= n - 3)))
+            if last and quick:
+                for j in (n - 3, n - 2):
+                    if j > 0 and j not in js:
+                        jobs.append(dict(u=b['u'], h=h, mode='fault', opt=dict(fault_step=s, fault_call=j), src=b['src'], must=True))
     if quick and len(jobs) > 420:
-        jobs = rnd.sample(jobs, 420)
+        must = [j for j in jobs if j.get('must')]
+        must = must if len(must) <= 160 else rnd.sample(must, 160)
+        rest = [j for j in jobs if not j.get('must')]
+        jobs = must + rnd.sample(rest, max(0, 420 - len(must)))
     # fault points that once exposed a defect, re-evaluated by the current specification
     jobs += [dict(j, src=j['src']) for j in props.regress_jobs(pid, scratch)]
     n_hist_faults = len(jobs)
